@@ -94,7 +94,7 @@ type CollectionList struct {
 }
 
 var (
-	blkRe = regexp.MustCompile(`^ [0-9a-f]{32}\+\d+`)
+	blkRe = regexp.MustCompile(`^( [0-9a-f]{32}\+\d+)(\+[A-Z][A-Za-z0-9@_-]*)*$`)
 	tokRe = regexp.MustCompile(` ?[^ ]*`)
 )
 
@@ -104,9 +104,12 @@ func PortableDataHash(mt string) string {
 	h := md5.New()
 	size := 0
 	_ = tokRe.ReplaceAllFunc([]byte(mt), func(tok []byte) []byte {
-		if m := blkRe.Find(tok); m != nil {
-			// write hash+size, ignore remaining block hints
-			tok = m
+		if m := blkRe.FindSubmatch(tok); m != nil {
+			// write hash+size, ignore remaining block
+			// hints. A token that merely starts like a
+			// locator (trailing garbage, or a "hint" that
+			// hides a line break) is hashed as it is.
+			tok = m[1]
 		}
 		n, err := h.Write(tok)
 		if err != nil {
